@@ -1,4 +1,4 @@
-use ahash::{HashMap, HashSet};
+use ahash::HashSet;
 use genawaiter::rc::gen;
 use genawaiter::yield_;
 
@@ -583,26 +583,45 @@ impl Xot {
         if !self.is_element(node) {
             return Err(Error::NotElement(node));
         };
-        let mut fullname_serializer = FullnameSerializer::new(self, self.base_prefixes().into_iter().collect());
-        let mut missing_namespace_ids = HashSet::default();
+        let mut fullname_serializer =
+            FullnameSerializer::new(self, self.base_prefixes().into_iter().collect());
+        // in order of first use, so that the prefixes come out the same every time
+        let mut missing_namespace_ids = Vec::new();
+        // prefixes that are taken: a new declaration may not override one of
+        // them on this node, nor be shadowed by one of them further down
+        let mut used_prefix_ids = self
+            .namespaces_in_scope(node)
+            .map(|(prefix_id, _)| prefix_id)
+            .collect::<HashSet<_>>();
         for edge in self.traverse(node) {
             match edge {
                 NodeEdge::Start(node) => {
                     let element = self.element(node);
                     if let Some(element) = element {
+                        used_prefix_ids.extend(self.namespaces(node).keys());
                         fullname_serializer.push(self.namespace_declarations(node));
-                        let element_fullname =
-                            fullname_serializer.element_fullname(element.name_id);
-                        if element_fullname.is_err() {
-                            let namespace_id = self.namespace_for_name(element.name_id);
-                            missing_namespace_ids.insert(namespace_id);
+                        let namespace_id = self.namespace_for_name(element.name_id);
+                        if namespace_id == self.no_namespace() {
+                            // the serializer undeclares a default namespace
+                            // for an element without namespace
+                            if fullname_serializer.has_default_namespace() {
+                                fullname_serializer.add_empty_prefix(namespace_id);
+                            }
+                        } else if fullname_serializer
+                            .element_fullname(element.name_id)
+                            .is_err()
+                            && !missing_namespace_ids.contains(&namespace_id)
+                        {
+                            missing_namespace_ids.push(namespace_id);
                         }
                         for name_id in self.attributes(node).keys() {
                             let attribute_fullname =
                                 fullname_serializer.attribute_fullname(name_id);
                             if attribute_fullname.is_err() {
                                 let namespace_id = self.namespace_for_name(name_id);
-                                missing_namespace_ids.insert(namespace_id);
+                                if !missing_namespace_ids.contains(&namespace_id) {
+                                    missing_namespace_ids.push(namespace_id);
+                                }
                             }
                         }
                     }
@@ -614,16 +633,23 @@ impl Xot {
                 }
             }
         }
-        let mut prefixes_to_add = HashMap::default();
-        for (i, namespace_id) in missing_namespace_ids.iter().enumerate() {
-            let prefix = format!("n{}", i);
-            let prefix_id = self.add_prefix(&prefix);
-            prefixes_to_add.insert(prefix_id, namespace_id);
+        let mut prefixes_to_add = Vec::new();
+        let mut i = 0;
+        for namespace_id in missing_namespace_ids {
+            // the first of n0, n1, n2, ... that is still free
+            let prefix_id = loop {
+                let prefix_id = self.add_prefix(&format!("n{}", i));
+                i += 1;
+                if !used_prefix_ids.contains(&prefix_id) {
+                    break prefix_id;
+                }
+            };
+            prefixes_to_add.push((prefix_id, namespace_id));
         }
         let mut namespaces = self.namespaces_mut(node);
 
         for (prefix_id, namespace_id) in prefixes_to_add {
-            namespaces.insert(prefix_id, *namespace_id);
+            namespaces.insert(prefix_id, namespace_id);
         }
         Ok(())
     }
